@@ -100,12 +100,15 @@ Inv_C02_Consecutive(dvn, from, baseIdx) ==
 
 \* C02: the store keeps reporting the delivered body (with state hash and
 \* receipts: dig is the hash of the body including the application's answer)
+\* (dig0: the application's reply to this commit was lost on its way to the node -
+\* the call returned an error - so the node can only keep the body as handed over)
+StoredDigOf(b) == IF "dig0" \in DOMAIN b THEN b.dig0 ELSE b.dig
 Inv_C02_StoreKeepsDelivered(dvn, son) ==
     \A i \in 1..Len(dvn) :
         LET k == dvn[i].idx - (IF son = << >> THEN 0 ELSE son[1].idx) + 1 IN
         IF k \in 1..Len(son) /\ son[k].idx = dvn[i].idx
-        THEN son[k].dig = dvn[i].dig
-        ELSE \E j \in 1..Len(son) : son[j].idx = dvn[i].idx /\ son[j].dig = dvn[i].dig
+        THEN son[k].dig = StoredDigOf(dvn[i])
+        ELSE \E j \in 1..Len(son) : son[j].idx = dvn[i].idx /\ son[j].dig = StoredDigOf(dvn[i])
 
 \* C02: collected signatures only grow
 SigSet(sb) == { << sb.sigs[k].by, sb.sigs[k].k >> : k \in 1..Len(sb.sigs) }
@@ -576,7 +579,10 @@ TraceSubmit ==
 SyncOutcome(n, x, o) ==
     LET nd == nodes[n]
         lostNow == "lost" \in DOMAIN x
-        r == IF lostNow THEN [ nd |-> nd, adm |-> TRUE, mis |-> FALSE, selfok |-> TRUE, wantsOK |-> TRUE, skips |-> 0 ]
+        \* x.nospec: the node went through something the specification does not model
+        \* (a commit whose reply was lost); it is still compared with the others
+        specOff == lostNow \/ "nospec" \in DOMAIN x
+        r == IF specOff THEN [ nd |-> nd, adm |-> TRUE, mis |-> FALSE, selfok |-> TRUE, wantsOK |-> TRUE, skips |-> 0 ]
              ELSE TraceSyncResult(D, nd, x, o)
         nd1 == r.nd
         h1 == nd1.h
@@ -610,7 +616,7 @@ SyncOutcome(n, x, o) ==
              \cup Checks("C04", "Inv_C04_Once", o.blocks = << >> \/ Inv_C04_Once(cev[n], o))
              \cup Checks("C04", "Inv_C04_Causal", Inv_C04_Causal(D, rv1, o, dlv1[n], base[n].idx >= 0, base[n].rr))
              \cup Checks("C04", "Inv_C04_BlockIsFrame", Inv_C04_BlockIsFrame(D, rv1, o))
-             \cup Checks("C04", "Inv_C04_NoLateReceive", lostNow \/ Inv_C04_NoLateReceive(nd.h.lcr, o))
+             \cup Checks("C04", "Inv_C04_NoLateReceive", specOff \/ Inv_C04_NoLateReceive(nd.h.lcr, o))
              \cup Checks("C04", "Inv_C04_Payload", o.blocks = << >> \/ Inv_C04_Payload(D, dlv1[n], from))
              \cup Checks("C05", "Inv_C05_OnlySubmittedOnce", o.blocks = << >> \/ Inv_C05_OnlySubmittedOnce(ctx[n], o, sub))
              \cup Checks("C05", "Inv_C05_NeverDropped",
@@ -633,7 +639,7 @@ SyncOutcome(n, x, o) ==
                              ob = << >> \/ (ob[1].fh = dlv1[n][i].fh /\ ob[1].ph = dlv1[n][i].ph))
              \cup Checks("C18", "Inv_C18_IsMedian", \A k \in 1..Len(o.blocks) : Inv_C18_IsMedian(D, o.blocks[k]))
              \cup Checks("C18", "Inv_C18_Bounded", \A k \in 1..Len(o.blocks) : Inv_C18_Bounded(D, o.blocks[k], Liars(meta)))
-        F == IF lostNow THEN {} ELSE
+        F == IF specOff THEN {} ELSE
              Checks("-", "Conf_Vals", ConfVals(h1, o))
              \cup Checks("-", "Conf_RR", ConfRR(h1, o))
              \cup Checks("-", "Conf_Rounds", ConfRounds(h1, o))
